@@ -55,7 +55,7 @@ def corpus():
     ]
     life = "s0|s1|c0:a|c0:b|u0:a|f0:1|c0:c@1|s0"
     lasts = ["c0:d", "u0:b", "x0:a", "m0:b:1", "a0:b", "f0:2", "r0:1:2", "p0:1", "g0:1:16", "k0:1", "z0:0", "w0:1",
-             "s1", "h1:0:0", "s0"]
+             "s1", "h1:0:0", "s0", "W0", "Z0", "i0:1"]
     for be in ("fs", "db"):
         for k, last in enumerate(lasts):
             pre = life if last != "s0" else life + "|c0:d|x0:c"
